@@ -281,7 +281,8 @@ def rand_seg_table(rng, ns=None, domain=True):
         ss, k = rng.choice([(U32, 1), (1 << 31, 1), (U32 - 5, 3), (1 << 31, 1 << 31)])
     pred = ss + k
     ns = ns if ns is not None else rng.choice([1, 1, 2, 3, 6])
-    groups = [rng.randint(0, 40) for _ in range(rng.choice([1, 2, 5, 12]))] + [rng.choice([0, 15, 16, 1000, 1 << 16, (1 << 20) + 7])]
+    # a group id g makes the real code keep a Vec<i32> of 1.2*g entries: big ids are rare here (cost), not excluded
+    groups = [rng.randint(0, 40) for _ in range(rng.choice([1, 2, 5, 12]))] + [rng.choice([0, 15, 16, 1000, 5000, 1 << 16 if rng.random() < 0.2 else 17, (1 << 20) + 7 if rng.random() < 0.05 else 18])]
     nxt = {}
     t = []
     for _ in range(ns):
@@ -548,7 +549,7 @@ def gen_cases(rng, tier):
         cs.append("split " + hx(a))
         cs.append(f"esplit {hx(a)} {hx(b)}")
     # -- name tables (the priority): bytes and decoded table
-    for _ in range(2500 if q else 150000):
+    for _ in range(2500 if q else 100000):
         cs.append("names " + names_token(rand_name_table(rng)))
     for n in ([1, 49, 50, 51, 130] if q else [1, 2, 49, 50, 51, 99, 100, 101, 120, 130, 300]):
         cs.append("names " + names_token(rand_name_table(rng, ns=n, maxc=3)))
@@ -562,7 +563,7 @@ def gen_cases(rng, tier):
                     s[i] = bad_name(rng, s[i - 1] if i else None)
         cs.append("names " + names_token(t))
     # -- mutated / random name streams
-    for _ in range(1500 if q else 60000):
+    for _ in range(1500 if q else 40000):
         t = rand_name_table(rng, maxc=5)
         b = ref_enc_names(t)
         r = rng.random()
@@ -590,7 +591,7 @@ def gen_cases(rng, tier):
     cs.append("dsnames " + hx(cv(3) + b"a\0b\0a\0"))
     # -- descriptor tables
     cs.append("details 60000 31 1:0:0:60031,1:5:0:60031,1:2:1:60031,1:2:0:60031,1:0:0:60031,1:7:0:60031")
-    for _ in range(2500 if q else 150000):
+    for _ in range(2500 if q else 60000):
         ss, k, t = rand_seg_table(rng)
         cs.append(f"details {ss} {k} {segs_token(t)}")
     for n in ([50, 130] if q else [49, 50, 51, 100, 130, 300]):
@@ -603,7 +604,7 @@ def gen_cases(rng, tier):
     cs.append("details 60000 31 3:2147483646:0:5,3:2147483647:0:5,3:1:0:5,3:0:1:7")
     cs.append("details 60000 31 3:7:0:5,3:4294967295:0:5")           # u32::MAX against a set predictor: e + 1 overflows
     # -- mutated details streams
-    for _ in range(1500 if q else 60000):
+    for _ in range(1500 if q else 40000):
         ss, k = rng.choice([(60000, 31), (10, 3), (0, 0)])
         ncont = [rng.choice([0, 1, 2, 3]) for _ in range(rng.choice([0, 1, 2, 3]))]
         counts = [[rng.choice([0, 1, 2, 5]) for _ in range(c)] for c in ncont]
